@@ -332,7 +332,33 @@ func TestVerifC16_Validate(t *testing.T) {
 			}
 		}
 
+		// the verdict is a function of the header's content, not of the object's history: the same
+		// content placed into an object that has already been validated successfully (or into a struct
+		// copy of it — whatever the type keeps privately travels with the copy) gets the same verdict
+		historyChecked := false
+		if !panicked {
+			carrier := cloneEH(orig)
+			if e, p := c16Validate(carrier); e == nil && p == nil {
+				target := carrier
+				if rapid.Bool().Draw(t, "historyByCopy") {
+					cp := *carrier
+					target = &cp
+				}
+				hc := cloneEH(h)
+				target.RawHeader, target.Commit, target.ValidatorSet, target.DAH = hc.RawHeader, hc.Commit, hc.ValidatorSet, hc.DAH
+				err1, pv1 := c16Validate(target)
+				if pv1 != nil || (err1 == nil) != acc {
+					t.Fatalf("C16-history: the same header content is judged differently in an object that was validated before (fresh object: %v; reused object: %v, panic %v)\n%s",
+						err0, err1, pv1, ctx)
+				}
+				historyChecked = true
+			}
+		}
+
 		labels := []string{"class=" + class}
+		if historyChecked {
+			labels = append(labels, "history-independence-checked")
+		}
 		labels = append(labels, m.labels...)
 		labels = append(labels, m.fixups...)
 		if acc {
